@@ -40,6 +40,15 @@ CHECKS = {
  "C11": dict(cat="model_checking", engine="seq-history", tech="explicit-state search over add-histories replayed on the real RelationSet (state = history), invariant on every state; final_step on reached states",
    text="For 6 moduli an alphabet of 19 genuinely valid relations (complete, single- and double-large-prime, duplicates, chains, a cycle closer, a p=q square, reversed pairs, explicit even sign, factor 2) is built by CRT square roots; ALL sequences without repetition up to length 5 (thorough 6) and ALL sequences with repetition up to length 3 (4) are replayed on a fresh real store and every reached state is checked with independent arithmetic: published relations are true congruences with cofactor 1, the compact form decodes to the same congruence, pending partials/doubles are true congruences, the reverse index mirrors the doubles. final_step runs on the maximal states, on full-size sets and on all small subsets of relations of tiny moduli whose factors are in the base: only proper divisors, no panic.",
    note="Trusted: harness u128 arithmetic and Tonelli/CRT construction (each alphabet relation re-verified). Histories longer than the bound and other large-prime topologies are outside.", ref="3/C11"),
+ "C12": dict(cat="model_checking", engine="seq-history", tech="explicit enumeration of Gray-code polynomial walks through the real first()/next() (state = index in the walk), invariant on every state for every factor-base prime",
+   text="For moduli of 20..160 bits (thorough: to 320) in every class mod 8, with multiplier 1 and the selected multiplier, the real SIQS pipeline (parameter functions, factor selection, A selection, prepare_a) is driven and the whole Gray-code family of the first and last A values is walked through the real Poly::first/next (capped at 256/4096 polynomials); at every index the polynomial identity is checked exactly at three points (a degree-2 identity) and, for EVERY factor-base prime, the stored roots are verified against the polynomial values (brute-force zero set below 4096). MPQS polynomials from the real D enumeration and classical QS forward/backward roots (and their large-block shifts) likewise; FBase::new square roots.",
+   note="Trusted: bnum I256/BUint arithmetic and u128 modular arithmetic. Walks longer than the cap and sizes above 320 bits are outside.", ref="3/C12"),
+ "C13": dict(cat="exploration", engine="seq-exhaustive", tech="bounded-exhaustive enumeration of sieve configurations; oracle from the root tables on every reported position of every block",
+   text="Two moduli x factor bases crossing every prime-size class boundary x interval lengths {1,2,3,5,20} x thresholds x root compensation x root tables {real QS roots, zero, p-1, single-root markers, bucket-edge offsets} x state {fresh, recycled, rehashed twice}: every block is sieved by the real code and for every reported position every base prime that divides it (by the root tables) must be listed, up to counted overflow losses; cofactor consequence on the QS configuration.",
+   note="Trusted: divisibility defined by the root tables. Synthetic tables keep single roots to one prime per class below 2^14 as real polynomials do. Thresholds/root rotate in quick mode.", ref="3/C13"),
+ "C14": dict(cat="exploration", engine="seq-exhaustive", tech="small-scope exhaustive enumeration of all GF(2) matrices up to 4x5/3x7 + structured families; exhaustive enumeration of Lanczos seeds through an RNG seam",
+   text="kernel_gauss on EVERY 0/1 matrix of the small shapes (1.3M matrices) and on a structured family (columns 1..2000/5000, coranks 0..100, uniform/sieve/duplicate/zero-column/band profiles): vectors non-zero, annihilated, independent, count = columns - rank. kernel_lanczos on the same family (>= 200 columns) and on tiny-kernel matrices for ALL seeds 0..15 (thorough 0..255) of its random block: every returned vector non-zero and in the kernel.",
+   note="Trusted: own GF(2) elimination. Lanczos' randomness is owned through hook H3 (seeded StdRng); the seed list is finite.", ref="3/C14"),
 }
 
 NOT_APPLICABLE = {
@@ -87,8 +96,8 @@ def main():
         "engines": [
             {"name": "seq-sweep", "path": "harness/src/sweep.rs", "serves_properties": ["C01", "C02", "C03"], "kind_free_text": "subprocess-sharded bounded-exhaustive driver of factor() with crash attribution"},
             {"name": "loom", "path": "lmharness/src/main.rs", "serves_properties": ["C04", "C05"], "kind_free_text": "loom (DPOR, preemption-bounded) exploration of the real code through the cfg-gated shim /repo/src/verif_shim.rs; one subprocess per scenario x bound; failing schedule saved as a loom checkpoint"},
-            {"name": "seq-exhaustive", "path": "harness/src/", "serves_properties": ["C06", "C07", "C08", "C09", "C10", "C17"], "kind_free_text": "in-process bounded-exhaustive enumerators with reference models (harness/src/refmodel.rs), parallel over 16 cores, panics captured per case"},
-            {"name": "seq-history", "path": "harness/src/c11.rs", "serves_properties": ["C11"], "kind_free_text": "explicit-state history search on real objects (fresh object per history, DFS sharded over 16 cores, canonical state hash for counting)"},
+            {"name": "seq-exhaustive", "path": "harness/src/", "serves_properties": ["C06", "C07", "C08", "C09", "C10", "C13", "C14", "C17"], "kind_free_text": "in-process bounded-exhaustive enumerators with reference models (harness/src/refmodel.rs), parallel over 16 cores, panics captured per case"},
+            {"name": "seq-history", "path": "harness/src/c11.rs", "serves_properties": ["C11", "C12"], "kind_free_text": "explicit-state history search on real objects (fresh object per history, DFS sharded over 16 cores, canonical state hash for counting)"},
             {"name": "seq-fault", "path": "harness/src/c05.rs", "serves_properties": ["C05"], "kind_free_text": "exhaustive abort-instant enumeration on the real factor()/classgroup()"},
         ],
         "checks": checks,
